@@ -24,10 +24,32 @@ def _flip_value(ev):
     return True
 
 
+def _audit(ck, tier, quick, wd, finish=True):
+    # 4. the parameters the library creates internally in the other subsystems (hook h1 + harness/param_audit.h):
+    #    monitor model (with the lemma that the relative encoding preserves acceptance), then the audit files
+    mcfg = os.path.join(wd, "audit_monitor.cfg")
+    open(mcfg, "w").write("SPECIFICATION Spec\nCONSTANTS\n  Objs = {1%s}\n  K = %d\nINVARIANTS WellCoded AuditParamOK IsCorrectAgrees RemoveRemoves\nCHECK_DEADLOCK FALSE\n"
+                          % ("" if quick else ", 2", 3 if quick else 4))
+    r = vc.model_check(SPEC, "ParamAudit", mcfg, coverage=True, timeout=3000, workers=4 if quick else None)
+    if r.assumption_failed:
+        ck.violation("ParamAudit: the relative order encoding does not preserve acceptance (RelLemma)", [r.out[-3000:]], tag="lemma")
+    pc.add_design(ck, "ParamAudit/monitor", r, "Objs=%s K=%d" % ("{1}" if quick else "{1,2}", 3 if quick else 4))
+    pc.audit_phase(ck, tier, wd)
+    if finish:
+        ck.rule = "audit of the Parameter objects of the other subsystems' drivers only (VERIF_C01_ONLY=audit)"
+        ck.distinct = ck.traces
+        return ck.finish()
+
+
 def run(tier, seed):
     ck = vc.Check("C01", tier, seed)
     quick = tier == "quick"
     wd = vc.workdir("c01")
+    # VERIF_C01_ONLY=audit runs the audit of internally created parameters alone (used to show that this part of the
+    # check detects a seeded change by itself)
+    only_audit = os.environ.get("VERIF_C01_ONLY", "") == "audit"
+    if only_audit:
+        return _audit(ck, tier, quick, wd)
     # 1. interval algebra lemmas, every interval / pair of intervals on a K-point grid
     kl = 3 if quick else 4
     lem = os.path.join(wd, "lemmas.cfg")
@@ -62,6 +84,7 @@ def run(tier, seed):
             pc.corruption_selftest(ck, tr, wd, _flip_value)
         ck.extra["events_" + name] = s.get("events", 0)
         os.remove(tr)
+    _audit(ck, tier, quick, wd, finish=False)
     ck.exhaustive = True
     ck.rule = ("every interval and pair of intervals on a %d-point grid with every code as test value (isCorrect, includes, "
                "isEmpty, getLimit, getAcceptedLimit, operator&, operator&=, readDescription); every interval x initial value x "
@@ -74,7 +97,9 @@ def run(tier, seed):
     ck.distinct = ck.traces
     ck.assumptions = ["TLC; CommunityModules Json", "E1: only the order type of {bounds, values} matters for the calls exercised",
                       "harness/drv_params.cpp projection uses public const queries only; objects are kept alive so identities are never reused",
-                      "parameter precision != 0 only on integer pools"]
+                      "parameter precision != 0 only on integer pools",
+                      "audit: hook h1 call-outs + periodic re-reading of live objects (harness/param_audit.h); bounds and value are encoded "
+                      "relative to the constraint's own bounds, acceptance decided by Accepts on the TLA+ side"]
     return ck.finish()
 
 
